@@ -37,6 +37,8 @@ impl Renamer {
 
         let mut i = 0;
         while name[i] != 0 {
+            #[cfg(dnssector_verif)]
+            crate::verif::tick(crate::verif::SITE_RENAME);
             if i == offset {
                 break;
             }
@@ -50,6 +52,8 @@ impl Renamer {
         }
         assert_eq!(i, offset);
         while name[i] != 0 {
+            #[cfg(dnssector_verif)]
+            crate::verif::tick(crate::verif::SITE_RENAME);
             let label_len = name[i] as usize;
             let source_label_len = source_name[i - offset] as usize;
             if label_len != source_label_len {
